@@ -19,6 +19,9 @@ SeedTable ==
 SeedSchemes == DOMAIN SeedTable
 SeedSet(n) == {<<s, "vers:" \o s \o "/" \o SeedTable[s][i][1], SeedTable[s][i][2]>> : s \in SeedSchemes, i \in 1..n}
 
+\* one-constraint ranges (an implementation may treat them on a path of their own)
+SingleSeedSet == {<<s, "vers:" \o s \o "/" \o o \o SeedTable[s][1][2], SeedTable[s][2][2]>> : s \in SeedSchemes, o \in {">=", "<"}}
+
 NearMiss == {"debian", "go", "semver", "Npm", "npm2", "", "np m", "rubygems", "python", "deb.", "DEB", "n"}
 NearMissSet == {<<"npm", "vers:" \o n \o "/>=1.0.0|<2.0.0", "1.5.0">> : n \in NearMiss}
 
